@@ -25,9 +25,11 @@ HERE = os.path.dirname(os.path.abspath(__file__))
 ROOT = os.path.dirname(HERE)
 REPO = os.environ.get('VERIF_REPO', '/repo')
 PKG = os.path.join(REPO, 'pymeeus')
-OUT_LEAN = os.path.join(ROOT, 'lean', 'Pymeeus', 'Gen', 'Effects', 'Current.lean')
-OUT_JSON = os.path.join(ROOT, '.work', 'effects.json')
-OUT_REPORT = os.path.join(ROOT, 'lean', '.work', 'effects_report.json')
+_LEAN = os.environ.get('VERIF_LEAN_DIR') or os.path.join(ROOT, 'lean')
+OUT_LEAN = os.path.join(_LEAN, 'Pymeeus', 'Gen', 'Effects', 'Current.lean')
+_WORK = os.environ.get('VERIF_WORK_DIR') or os.path.join(ROOT, '.work')
+OUT_JSON = os.path.join(_WORK, 'effects.json')
+OUT_REPORT = os.path.join(_LEAN, '.work', 'effects_report.json')
 
 # The in-place mutators the documentation of pymeeus names (receiver = parameter 0).  Constructors
 # (`__init__`) are mutators of the object being constructed.  Everything else that is public must be
@@ -2859,7 +2861,7 @@ def main():
                                                         '' if r[1] == r[2] else '<-- WRONG'))
         return 1 if bad else 0
     d = os.path.dirname(OUT_LEAN)
-    stamp_file = os.path.join(ROOT, '.work', 'effects.stamp')
+    stamp_file = os.path.join(_WORK, 'effects.stamp')
     stamp = source_stamp()
     plain = not any(a in sys.argv for a in ('--report', '--dump', '--force'))
     if plain and os.path.exists(stamp_file) and open(stamp_file).read() == stamp \
@@ -2932,7 +2934,7 @@ def main_():
         print('give-ups (havoc):', json.dumps(world.giveups, indent=1))
         print('assumptions:', json.dumps(sorted(world.assumptions), indent=1))
         print('writers:', [(f.qual, sums[f.id]['writes'], sums[f.id]['keeps']) for f in live if sums[f.id]['writes']])
-    with open(os.path.join(ROOT, '.work', 'effects.stamp'), 'w') as fh:
+    with open(os.path.join(_WORK, 'effects.stamp'), 'w') as fh:
         fh.write(source_stamp())
     return 0
 
